@@ -410,6 +410,14 @@ pub fn run(report: &mut Report) {
         (pk("client.crt"), bundle("two-keys.pem"), "two keys in the key file", true),
         (bundle("chain.pem"), bundle("key-then-cert.pem"), "chain file and key-first bundle", true),
     ];
+    // the same material in DER form (no PEM armour, no label: nothing says what a file is)
+    _ = std::fs::write(bundle_dir.join("client-key.der"), peers::load_key("client.key").secret_der());
+    _ = std::fs::write(bundle_dir.join("client-ec-key.der"), peers::load_key("client-ec.key").secret_der());
+    _ = std::fs::write(bundle_dir.join("client-crt.der"), peers::load_certs("client.crt").remove(0).as_ref());
+    agent_cases.push((bundle("client-key.der"), pk("client.key"), "DER key file at the certificate path", true));
+    agent_cases.push((bundle("client-ec-key.der"), pk("client-ec.key"), "DER EC key file at the certificate path", true));
+    agent_cases.push((pk("client.crt"), bundle("client-key.der"), "DER key file at the key path", true));
+    agent_cases.push((bundle("client-crt.der"), bundle("client-key.der"), "DER certificate and DER key", true));
     for (name, _) in &damaged {
         let what: &'static str = Box::leak(format!("damaged key file {name}").into_boxed_str());
         agent_cases.push((pk("client.crt"), bundle(name), what, true));
